@@ -330,6 +330,7 @@ pub enum OpKind {
     Age,
     AutoCleanupConfig,
     DropRecreate,
+    PartialUpsert,
 }
 
 impl OpKind {
@@ -362,6 +363,7 @@ impl OpKind {
             OpKind::Age => "age",
             OpKind::AutoCleanupConfig => "auto_cleanup_config",
             OpKind::DropRecreate => "drop_and_recreate",
+            OpKind::PartialUpsert => "merge_insert_partial_schema",
         }
     }
 }
@@ -378,6 +380,7 @@ pub fn base_weights() -> Weights {
         (4, DeleteVal),
         (7, Update),
         (7, Upsert),
+        (5, PartialUpsert),
         (8, Compact),
         (6, CreateIndex),
         (4, OptimizeIndices),
@@ -594,6 +597,9 @@ pub struct HistCfg {
     /// never ask compaction to defer the index remap (C38: an indexed query through the Session that
     /// cached the index before such a compaction never completes — liveness, reported separately)
     pub no_deferred_remap: bool,
+    /// partial-schema merge_insert on LEGACY tables leaves versions that fresh Sessions cannot read
+    /// (known C05 finding); only C05 exercises it
+    pub partial_upsert_on_legacy: bool,
 }
 
 impl HistCfg {
@@ -613,6 +619,7 @@ impl HistCfg {
             cleanup_isolated_only: true,
             restore_on_branches: false,
             no_deferred_remap: false,
+            partial_upsert_on_legacy: false,
         }
     }
     pub fn describe(&self) -> String {
@@ -1135,6 +1142,7 @@ impl Hist {
             OpKind::ConcurrentDeletes => self.op_concurrent_deletes(&loc, desc).await,
             OpKind::CrashedAppend => self.op_crashed_append(&loc, desc).await,
             OpKind::DropRecreate => self.op_drop_recreate(&loc, desc).await,
+            OpKind::PartialUpsert => self.op_partial_upsert(&loc, desc).await,
             OpKind::Age => unreachable!(),
         }
     }
@@ -1345,6 +1353,50 @@ impl Hist {
         for (id, r) in ids.iter().zip(batch_to_rows(&batch)) {
             lin.model.rows.insert(*id, r);
         }
+        (Outcome::Ok, Extra::None)
+    }
+
+    /// merge_insert whose source has only `id` + one column (matched rows only): the in-place
+    /// column rewrite path (new data file per fragment, old field ids tombstoned with -2)
+    async fn op_partial_upsert(&mut self, loc: &Loc, desc: &mut Value) -> (Outcome, Extra) {
+        if self.cfg.storage == LanceFileVersion::Legacy && !self.cfg.partial_upsert_on_legacy {
+            return (Outcome::Skipped, Extra::None);
+        }
+        let Some(spec) = self.spec_of(loc) else {
+            return (Outcome::Skipped, Extra::None);
+        };
+        let cands: Vec<ColSpec> = spec.cols.iter().filter(|c| is_int_ty(&c.ty) || is_str_ty(&c.ty)).cloned().collect();
+        if cands.is_empty() || self.lin[loc].model.rows.is_empty() {
+            return (Outcome::Skipped, Extra::None);
+        }
+        let c = self.rng.pick(&cands).clone();
+        let Some(pos) = self.lin[loc].model.col(&c.name) else {
+            return (Outcome::Skipped, Extra::None);
+        };
+        let ids = self.pick_ids(loc, 1, 2);
+        let sub = TableSpec { cols: vec![c.clone()] };
+        let b = sub.batch(&mut self.rng, &ids);
+        let full = self.arrow_schema_of(loc);
+        let fields: Vec<ArrowField> = vec![full.field(0).clone(), full.field_with_name(&c.name).map(|f| f.clone()).unwrap_or_else(|_| b.schema().field(1).clone())];
+        let Ok(batch) = RecordBatch::try_new(Arc::new(ArrowSchema::new(fields)), b.columns().to_vec()) else {
+            return (Outcome::Skipped, Extra::None);
+        };
+        *desc = json!({"col": c.name, "rows": ids.len()});
+        let lin = self.lin.get_mut(loc).unwrap();
+        let mut mb = lance_try!(MergeInsertBuilder::try_new(Arc::new(lin.head.clone()), vec!["id".to_string()]));
+        mb.when_matched(WhenMatched::UpdateAll).when_not_matched(WhenNotMatched::DoNothing);
+        let job = lance_try!(mb.try_build());
+        let reader = RecordBatchIterator::new(vec![Ok(batch.clone())], batch.schema());
+        let (ds, stats) = lance_try!(job.execute_reader(Box::new(reader) as Box<dyn arrow_array::RecordBatchReader + Send>).await);
+        lin.head = (*ds).clone();
+        desc["stats"] = json!([stats.num_inserted_rows, stats.num_updated_rows, stats.num_deleted_rows]);
+        for (id, r) in ids.iter().zip(batch_to_rows(&batch)) {
+            if let Some(row) = lin.model.rows.get_mut(id) {
+                row[pos] = r[1].clone();
+            }
+        }
+        // an index on the rewritten column may lose coverage of the rewritten fragments
+        lin.model.indices_unknown = true;
         (Outcome::Ok, Extra::None)
     }
 
